@@ -345,6 +345,12 @@ fn fd_path(st: &SimState, fd: c_int) -> Option<String> {
     None
 }
 
+/// Size the next fstat-by-statx is to report instead of the true one (-1: none). Set and cleared
+/// under the SIM lock, around the real call, by fd_call - "the size a file reports is only a hint":
+/// procfs and sysfs files, pipes and files that grow while they are read all report a size that
+/// is not the number of bytes reading yields.
+static SIZE_LIE: std::sync::atomic::AtomicI64 = std::sync::atomic::AtomicI64::new(-1);
+
 enum Decision {
     Pass,
     Fail(i32),
@@ -702,6 +708,12 @@ unsafe fn fd_call(call: Call, fd: c_int, req: i64, site: u32, real: &dyn Fn() ->
             }
             (-1, e)
         }
+        Decision::Limit(n) if call == Call::Fstat => {
+            SIZE_LIE.store(n as i64, std::sync::atomic::Ordering::SeqCst);
+            let r = real();
+            SIZE_LIE.store(-1, std::sync::atomic::Ordering::SeqCst);
+            (r, if r < 0 { get_errno() } else { 0 })
+        }
         _ => {
             let r = real();
             (r, if r < 0 { get_errno() } else { 0 })
@@ -820,7 +832,12 @@ pub unsafe extern "C" fn statx(
     buf: *mut c_void,
 ) -> c_int {
     let real = || -> i64 {
-        libc::syscall(libc::SYS_statx, dirfd as c_long, path, flags as c_long, mask as c_long, buf) as i64
+        let r = libc::syscall(libc::SYS_statx, dirfd as c_long, path, flags as c_long, mask as c_long, buf) as i64;
+        let lie = SIZE_LIE.load(std::sync::atomic::Ordering::SeqCst);
+        if r == 0 && lie >= 0 && !buf.is_null() {
+            (*(buf as *mut libc::statx)).stx_size = lie as u64;
+        }
+        r
     };
     if path.is_null() {
         // Rust's std probes for statx with a NULL path and expects EFAULT: not an I/O event
